@@ -57,6 +57,16 @@ def template_sources(tier, rnd):
         import re
         ibody = re.sub(r"return [^;]*;", "return;", body)
         src = f"let ch = chan(50);\nfn f({params}) {{ {body} }}\nclass A {{ init({params}) {{ {ibody} }} m({params}) {{ {body} }} }}\n"
+        # a subclass whose methods reach the superclass in every form (fused and un-fused super calls, super methods as
+        # values, field writes) in front of and inside the try blocks: handler depths after each of those instructions
+        cnt = [0]
+        def sup(m_):
+            cnt[0] += 1
+            return rnd.choice(["try {{", "super.sm({n}); try {{", "let sv{n} = super.sm; try {{", "try {{ super.sm({n}, {n});", "print(super.sm0()); try {{",
+                               "self.fld{n} = {n}; try {{", "let sw{n} = super.sm({n}) + super.sm0(); try {{ print(sw{n});",
+                               "print(g(super.sm)); try {{"]).format(n=cnt[0])
+        mbody = re.sub(r"try \{", sup, body)
+        src += f"fn g(x) {{ return x; }}\nclass B {{ sm(a) {{ return a; }} sm0() {{ return 0; }} }}\nclass D : B {{ m({params}) {{ {mbody} }} static s({params}) {{ {body} }} }}\n"
         src += " ".join(block(rnd.randint(0, 2), rnd.randint(1, 2), False, 5)).replace("return", "print") + "\n"
         out.append((f"tpl:{t}", src))
     # limit templates
